@@ -68,12 +68,18 @@ def ok(t):
     return all(max_inter(t, o) <= MAXORD for o in range(4))
 
 def cs(c):
+    if c[0] == 'u': return '%du' % c[1]                       # unsigned int
+    if c[0] == 'z': return 'static_cast<size_t>(%d)' % c[1]   # size_t
+    if c[0] == 'l': return '%dL' % c[1]                       # long
+    if c[0] == 'h': return 'static_cast<unsigned short>(%d)' % c[1]
     if c[0] == 'q': return 'ex::K(%d, %d)' % (c[1], c[2])
     return '(%d)' % c[1] if c[1] < 0 else '%d' % c[1]
 def rs(c):
+    if c[0] in 'uzlh': return 'rq(%d)' % c[1]
     if c[0] == 'q': return 'rq(%d, %d)' % (c[1], c[2])
     return 'rq(%d)' % c[1]
 def ts(c):
+    if c[0] in 'uzlh': return '%d%s' % (c[1], {'u': 'u', 'z': 'uz', 'l': 'L', 'h': 'us'}[c[0]])
     if c[0] == 'q': return 'q(%d/%d)' % (c[1], c[2])
     return '%d' % c[1]
 
@@ -133,7 +139,7 @@ def kinds(t, acc):
     if t[0] in ('lscale', 'cadd', 'csub'): acc.add(t[0] + ':' + t[1][0])
     if t[0] in ('rscale', 'div', 'addc', 'subc'): acc.add(t[0] + ':' + t[2][0])
     for x in t[1:]:
-        if isinstance(x, tuple) and x and x[0] not in ('q', 'i') and isinstance(x[0], str): kinds(x, acc)
+        if isinstance(x, tuple) and x and x[0] not in ('q', 'i', 'u', 'z', 'l', 'h') and isinstance(x[0], str): kinds(x, acc)
     return acc
 
 Q = lambda n, d=1: ('q', n, d)
@@ -160,6 +166,13 @@ HIGH = [
     ('sub', ('X', 7), ('lscale', Iv(2), ('X', 5))),
     ('div', ('mul', ('S', 0), ('X', 4)), Iv(3)),
     ('mul', ('D', 5), ('X', 5)),
+    # built-in scalar types other than int in every scalar position (unsigned, size_t, long, unsigned short)
+    ('subc', ('D', 1), ('u', 3)),
+    ('mul', ('D', 1), ('subc', ('X', 1), ('z', 2))),
+    ('csub', ('u', 4), ('subc', ('X', 1), ('h', 2))),
+    ('addc', ('lscale', ('l', -3), ('X', 2)), ('u', 5)),
+    ('div', ('cadd', ('z', 3), ('S', 1)), ('l', 4)),
+    ('neg', ('subc', ('rscale', ('D', 2), ('u', 2)), ('l', 7))),
 ]
 
 def emit_unit(path, exprs, seed, unit):
@@ -192,8 +205,9 @@ def main():
     catalogue = '--catalogue' in sys.argv
     if '--high' in sys.argv:
         os.makedirs(outdir, exist_ok=True)
-        emit_unit(os.path.join(outdir, 'cat_08.cpp'), HIGH, seed, 8)
-        print('wrote cat_08.cpp')
+        emit_unit(os.path.join(outdir, 'cat_08.cpp'), HIGH[:6], seed, 8)
+        emit_unit(os.path.join(outdir, 'cat_09.cpp'), HIGH[6:], seed, 9)
+        print('wrote cat_08.cpp cat_09.cpp')
         return
     rng = random.Random(seed)
     os.makedirs(outdir, exist_ok=True)
